@@ -65,6 +65,14 @@ func (l *Linter) Error(err error) {
 	}
 }
 
+// report appends a diagnostic whose ignore decision has already been taken.
+// Like Error it holds the mutex: Errors is also appended to on behalf of lint plugins.
+func (l *Linter) report(le *LintError) {
+	l.mu.Lock()
+	defer l.mu.Unlock()
+	l.Errors = append(l.Errors, le)
+}
+
 // Expose lint function to call from external program.
 // It means this method is bootstrap, called only once.
 func (l *Linter) Lint(node ast.Node, ctx *context.Context) types.Type {
@@ -184,7 +192,7 @@ func (l *Linter) lintUnusedVariables(ctx *context.Context) {
 		// Whether the variable is ignored has been decided at its declare statement (it is marked as used there).
 		// The ignore state in effect when the subroutine ends must not decide it again: a falco-ignore-start
 		// written after the declaration and still open here would hide the variable declared before it.
-		l.Errors = append(l.Errors, UnusedVariable(o.Meta, k).Match(UNUSED_VARIABLE))
+		l.report(UnusedVariable(o.Meta, k).Match(UNUSED_VARIABLE))
 	}
 }
 
